@@ -299,10 +299,18 @@ def gen_c01_spec(rng: random.Random, maxn: int = 40) -> Dict[str, Any]:
             # ... with an injected parameter in the Annotated style, on a worker that does not parse arguments
             spec["tasks"]["t_late"]["ctx"] = "annotated"
             spec["cfg"]["validate"] = rng.random() < 0.5
+        rereg = rng.random() < 0.4
+        if rereg:
+            # the name is registered again later with a function of the other kind (a new version of the task deployed at
+            # run time): messages run whatever function the name stands for when they are processed
+            spec["tasks"]["t_late_v2"] = {"fn": "async" if spec["tasks"]["t_late"]["fn"] == "sync" else "sync", "reg_name": "t_late",
+                                          "late_at": round(at + rng.choice([0.1, 0.3, 0.6]), 4)}
+            if spec["tasks"]["t_late"].get("ctx"):
+                spec["tasks"]["t_late_v2"]["ctx"] = spec["tasks"]["t_late"]["ctx"]
         for m in msgs:
             if m["kind"] == "valid" and m["task"] in ("t_async", "t_sync") and rng.random() < 0.6:
                 m["task"] = "t_late"
-                if spec["tasks"]["t_late"]["fn"] == "sync":
+                if spec["tasks"]["t_late"]["fn"] == "sync" or rereg:
                     m["beh"]["dur"] = []
     elif r < 0.24:
         # tasks with different dependency parameters on one worker, with dependency overrides in force
@@ -318,6 +326,9 @@ def gen_c01_spec(rng: random.Random, maxn: int = 40) -> Dict[str, Any]:
                 m["task"] = rng.choice(["t_da", "t_db", "t_dc", "t_dn"])
                 if spec["tasks"][m["task"]]["fn"] == "sync":
                     m["beh"]["dur"] = []
+                if m["task"] in ("t_da", "t_dc") and "kwargs" not in m and rng.random() < 0.25:
+                    # the caller sends a value for a parameter that has a dependency default: the sent value is used
+                    m["kwargs"] = {"d0": "sent-by-caller"}
     elif r < 0.36:
         # the process-wide shared registry: a shared task nobody else defines must run; a shared task that has
         # the name of one of the worker's own tasks must not replace it
